@@ -21,10 +21,20 @@ structure QC (s s' : Sys) : Prop where
   ilen : s'.insts.length = s.insts.length
   alive : ∀ j, (s'.inst j).cmd = .alive → (s.inst j).cmd = .alive
   pids : procIds s' = procIds s
+  tlen : s.threads.length ≤ s'.threads.length
+  kinds : ∀ u, u < s.threads.length → (s'.thr u).kind = (s.thr u).kind
+  newNP : ∀ u, s.threads.length ≤ u → u < s'.threads.length → ∀ k, (s'.thr u).kind ≠ .proc k
 
-theorem QC.refl (s : Sys) : QC s s := ⟨rfl, rfl, fun _ h => h, rfl⟩
+theorem QC.refl (s : Sys) : QC s s :=
+  ⟨rfl, rfl, fun _ h => h, rfl, Nat.le_refl _, fun _ _ => rfl, fun u h1 h2 => absurd h2 (Nat.not_lt.mpr h1)⟩
 theorem QC.trans {a b c : Sys} (h1 : QC a b) (h2 : QC b c) : QC a c :=
-  ⟨h2.running.trans h1.running, h2.ilen.trans h1.ilen, fun j h => h1.alive j (h2.alive j h), h2.pids.trans h1.pids⟩
+  ⟨h2.running.trans h1.running, h2.ilen.trans h1.ilen, fun j h => h1.alive j (h2.alive j h), h2.pids.trans h1.pids,
+   Nat.le_trans h1.tlen h2.tlen,
+   fun u hu => (h2.kinds u (Nat.lt_of_lt_of_le hu h1.tlen)).trans (h1.kinds u hu),
+   fun u hu hc k => by
+     by_cases hb : u < b.threads.length
+     · rw [h2.kinds u hb]; exact h1.newNP u hu hb k
+     · exact h2.newNP u (Nat.le_of_not_lt hb) hc k⟩
 
 structure CSame (s s' : Sys) : Prop where
   running : s'.running = s.running
@@ -33,7 +43,8 @@ structure CSame (s s' : Sys) : Prop where
 
 theorem QC.of_same {s s' : Sys} (h : CSame s s') : QC s s' :=
   ⟨h.running, by rw [h.insts], fun j hj => by unfold Sys.inst at hj ⊢; rw [h.insts] at hj; exact hj,
-   by unfold procIds; rw [h.threads]⟩
+   by unfold procIds; rw [h.threads], by rw [h.threads]; exact Nat.le_refl _, fun u _ => by unfold Sys.thr; rw [h.threads],
+   fun u h1 h2 => absurd h2 (by rw [h.threads]; exact Nat.not_lt.mpr h1)⟩
 
 macro "csame" : tactic => `(tactic| exact ⟨rfl, rfl, rfl⟩)
 
@@ -43,7 +54,7 @@ theorem inst_default_cmd (s : Sys) (j : IId) (hj : ¬ j < s.insts.length) : (s.i
 /-- an update of one instance record that does not bring a command to life -/
 theorem setInst_c (s : Sys) (i : IId) (f : Inst → Inst)
     (hf : ∀ x, (f x).cmd = .alive → x.cmd = .alive := by intro x h; first | exact h | cases h) : QC s (s.setInst i f) := by
-  refine ⟨rfl, by simp [Sys.setInst], fun j hj => ?_, rfl⟩
+  refine ⟨rfl, by simp [Sys.setInst], fun j hj => ?_, rfl, Nat.le_refl _, fun _ _ => rfl, fun u h1 h2 => absurd h2 (Nat.not_lt.mpr h1)⟩
   by_cases hl : j < s.insts.length
   · rw [inst_setInst _ _ _ _ hl] at hj
     split at hj
@@ -71,13 +82,30 @@ theorem procIds_setPc (s : Sys) (t : Tid) (pc : Pc) : procIds (s.setPc t pc) = p
   unfold procIds Sys.setPc
   exact filterMap_modify_same (fun th : Thr => th.kind.procId) (fun th => { th with pc := pc }) (fun _ => rfl) s.threads t
 
-theorem setPc_c (s : Sys) (t pc) : QC s (s.setPc t pc) := ⟨rfl, rfl, fun _ h => h, procIds_setPc s t pc⟩
+theorem setPc_c (s : Sys) (t pc) : QC s (s.setPc t pc) :=
+  ⟨rfl, rfl, fun _ h => h, procIds_setPc s t pc, by simp [Sys.setPc],
+   fun u _ => by
+     by_cases e : u = t
+     · subst e; exact thr_setPc_kind s u pc
+     · rw [thr_setPc_ne s t u pc e],
+   fun u h1 h2 => absurd h2 (by simpa [Sys.setPc] using Nat.not_lt.mpr h1)⟩
 /-- a new thread that is not a process goroutine -/
 theorem spawn_c (s : Sys) (k) (hk : ∀ i, k = .proc i → False) : QC s (s.spawn k) := by
-  refine ⟨rfl, rfl, fun _ h => h, ?_⟩
-  unfold procIds Sys.spawn
-  simp only [List.filterMap_append, List.filterMap_cons, List.filterMap_nil]
-  cases k <;> simp [Kind.procId] <;> exact (hk _ rfl).elim
+  refine ⟨rfl, rfl, fun _ h => h, ?_, by simp [Sys.spawn], fun u hu => ?_, fun u h1 h2 j => ?_⟩
+  · unfold procIds Sys.spawn
+    simp only [List.filterMap_append, List.filterMap_cons, List.filterMap_nil]
+    cases k <;> simp [Kind.procId] <;> exact (hk _ rfl).elim
+  · unfold Sys.thr Sys.spawn
+    simp only [List.getD_eq_getElem?_getD]
+    rw [List.getElem?_append_left hu]
+  · have hu : u = s.threads.length := by
+      simp only [Sys.spawn, List.length_append, List.length_singleton] at h2
+      exact Nat.le_antisymm (Nat.le_of_lt_succ h2) h1
+    subst hu
+    unfold Sys.thr Sys.spawn
+    simp only [List.getD_eq_getElem?_getD, List.getElem?_append_right (Nat.le_refl _), Nat.sub_self]
+    intro e
+    exact hk j (by simpa using e)
 
 theorem setPs_c (s : Sys) (n : Name) (f : PState → PState) : QC s (s.setPs n f) := QC.of_same (by csame)
 
@@ -457,14 +485,29 @@ structure LQ (i : IId) (s s' : Sys) : Prop where
   ilen : s'.insts.length = s.insts.length
   alive : ∀ j, (s'.inst j).cmd = .alive → (s.inst j).cmd = .alive ∨ j = i
   pids : procIds s' = procIds s
+  tlen : s.threads.length ≤ s'.threads.length
+  kinds : ∀ u, u < s.threads.length → (s'.thr u).kind = (s.thr u).kind
+  newNP : ∀ u, s.threads.length ≤ u → u < s'.threads.length → ∀ k, (s'.thr u).kind ≠ .proc k
 
 theorem LQ.after {i : IId} {a b c : Sys} (h1 : QC a b) (h2 : LQ i b c) : LQ i a c :=
-  ⟨h2.running.trans h1.running, h2.ilen.trans h1.ilen, fun j hj => (h2.alive j hj).imp (h1.alive j) id, h2.pids.trans h1.pids⟩
+  ⟨h2.running.trans h1.running, h2.ilen.trans h1.ilen, fun j hj => (h2.alive j hj).imp (h1.alive j) id, h2.pids.trans h1.pids,
+   Nat.le_trans h1.tlen h2.tlen,
+   fun u hu => (h2.kinds u (Nat.lt_of_lt_of_le hu h1.tlen)).trans (h1.kinds u hu),
+   fun u hu hc k => by
+     by_cases hb : u < b.threads.length
+     · rw [h2.kinds u hb]; exact h1.newNP u hu hb k
+     · exact h2.newNP u (Nat.le_of_not_lt hb) hc k⟩
 theorem LQ.before {i : IId} {a b c : Sys} (h1 : LQ i a b) (h2 : QC b c) : LQ i a c :=
-  ⟨h2.running.trans h1.running, h2.ilen.trans h1.ilen, fun j hj => h1.alive j (h2.alive j hj), h2.pids.trans h1.pids⟩
+  ⟨h2.running.trans h1.running, h2.ilen.trans h1.ilen, fun j hj => h1.alive j (h2.alive j hj), h2.pids.trans h1.pids,
+   Nat.le_trans h1.tlen h2.tlen,
+   fun u hu => (h2.kinds u (Nat.lt_of_lt_of_le hu h1.tlen)).trans (h1.kinds u hu),
+   fun u hu hc k => by
+     by_cases hb : u < b.threads.length
+     · rw [h2.kinds u hb]; exact h1.newNP u hu hb k
+     · exact h2.newNP u (Nat.le_of_not_lt hb) hc k⟩
 
 theorem setInst_lq (s : Sys) (i : IId) (f : Inst → Inst) : LQ i s (s.setInst i f) := by
-  refine ⟨rfl, by simp [Sys.setInst], fun j hj => ?_, rfl⟩
+  refine ⟨rfl, by simp [Sys.setInst], fun j hj => ?_, rfl, Nat.le_refl _, fun _ _ => rfl, fun u h1 h2 => absurd h2 (Nat.not_lt.mpr h1)⟩
   by_cases e : j = i
   · exact Or.inr e
   · left
@@ -902,5 +945,84 @@ theorem one_alive_unique {s : Sys} (g : One s) (i j : IId) (hi : (s.inst i).cmd 
   have r2 := g.reg w j hw hkw (by rw [hpw]; intro e; cases e)
   rw [hn, r2] at r1
   exact (Option.some.inj r1).symm
+
+/-! ### the guard can fail only where an instance is registered -/
+
+theorem qc_keeps {s s' : Sys} (t : Tid) (q : QC s s') : KeepsRegs s s' t :=
+  ⟨fun n i h => Or.inl (by rw [q.running]; exact h), fun u j h1 h2 hk => absurd hk (q.newNP u h1 h2 j)⟩
+
+theorem lq_keeps {s s' : Sys} (t : Tid) {i : IId} (q : LQ i s s') : KeepsRegs s s' t :=
+  ⟨fun n i h => Or.inl (by rw [q.running]; exact h), fun u j h1 h2 hk => absurd hk (q.newNP u h1 h2 j)⟩
+
+theorem doLaunch_keeps (s : Sys) (t : Tid) (i : IId) : KeepsRegs s (doLaunch s t i) t := by
+  rcases doLaunch_cases s t i with q | ⟨q, _⟩
+  · exact qc_keeps t q
+  · exact lq_keeps t q
+
+theorem armRunChecked_keeps (s : Sys) (t : Tid) (i : IId) : KeepsRegs s (armRunChecked s t i) t := by
+  unfold armRunChecked
+  split
+  · exact qc_keeps t (((setExit_c _ _ _).then (onProcessEnd_c _ _ _)).then (setPc_c _ _ _))
+  · have h0 : QC s ((s.setInst i fun x => { x with started := true }).emit (.started (s.nameOf i))) :=
+      (setInst_c _ _ _).then (emit_c _ _)
+    rcases doLaunch_cases ((s.setInst i fun x => { x with started := true }).emit (.started (s.nameOf i))) t i with q | ⟨q, _⟩
+    · exact qc_keeps t (h0.then q)
+    · exact lq_keeps t (LQ.after h0 q)
+
+/-- the unregistration removes the goroutine's own registration only -/
+theorem armLockCleanup_keeps (s : Sys) (t : Tid) (i : IId) (hk : (s.thr t).kind = .proc i) :
+    KeepsRegs s (armLockCleanup s t i) t := by
+  have hlen : (armLockCleanup s t i).threads.length = s.threads.length := by
+    unfold armLockCleanup; split <;> simp [Sys.setPc]
+  refine ⟨fun n j hn => ?_, fun u j h1 h2 _ => absurd h2 (by rw [hlen]; exact Nat.not_lt.mpr h1)⟩
+  unfold armLockCleanup
+  split
+  · rename_i hr
+    by_cases e : n = s.nameOf i
+    · subst e
+      rw [hr] at hn
+      have hji : i = j := Option.some.inj hn
+      subst hji
+      right
+      refine ⟨?_, hk⟩
+      show (s.running.set (s.nameOf i) none).getD (s.nameOf i) none = none
+      by_cases hl : s.nameOf i < s.running.length <;> simp [List.getD_eq_getElem?_getD, List.getElem?_set, hl]
+    · left
+      show (s.running.set (s.nameOf i) none).getD n none = some j
+      simp only [List.getD_eq_getElem?_getD, List.getElem?_set, Ne.symm e, ↓reduceIte]
+      simpa [List.getD_eq_getElem?_getD] using hn
+  · exact Or.inl hn
+
+/-- **The guard can fail only at the point where a start / restart / `Run()` request registers
+    instances**: every other thread step - every step of a process goroutine, of a stop or shutdown
+    in progress, of a probe callback - keeps the registrations. -/
+theorem guard_fails_only_when_registering (s : Sys) (t : Tid) (h : Hints)
+    (hf : ¬ KeepsRegs s (stepThread s t h) t) :
+    ∃ id op, (s.thr t).kind = .api id op ∧ specialApi op (s.thr t).pc = true := by
+  cases hq : special s t with
+  | false => exact absurd (qc_keeps t (stepThread_c s t h hq)) hf
+  | true =>
+    unfold special at hq
+    cases hk : (s.thr t).kind with
+    | proc i =>
+      exfalso
+      rw [hk] at hq
+      simp only at hq
+      have hsd : (s.thr t).pc.isStopSd = false := by
+        cases hs : (s.thr t).pc.isStopSd with
+        | false => rfl
+        | true => rw [stopSd_not_specialProc _ hs] at hq; cases hq
+      rw [stepThread_proc s t h i hk hsd] at hf
+      generalize (s.thr t).pc = pc at hq hf
+      cases pc <;> simp [Pc.isSpecialProc] at hq
+      · simp only [stepProc] at hf; exact hf (armRunChecked_keeps s t i)
+      · simp only [stepProc] at hf; exact hf (doLaunch_keeps s t i)
+      · simp only [stepProc] at hf; exact hf (armLockCleanup_keeps s t i hk)
+    | api id op => rw [hk] at hq; exact ⟨id, op, rfl, hq⟩
+    | waiter i => rw [hk] at hq; cases hq
+    | stopper i => rw [hk] at hq; cases hq
+    | depwaiter o i => rw [hk] at hq; cases hq
+    | probe id n => rw [hk] at hq; cases hq
+    | pstart i => rw [hk] at hq; cases hq
 
 end PC.Sup
